@@ -46,6 +46,10 @@ def jobs(tier):
             out.append(("create.%s.mixedcase2" % which, "job_create", dict(which=which, shape="mixedcase2", K=2, edits=0, mode="sizes")))
     for version in (1, 3):
         out.append(("edit-foreign-layout.v%d" % version, "job_edit_foreign", dict(version=version)))
+    for version in (2, 3):
+        out.append(("edit-mixed-keys.v%d" % version, "job_edit_mixed", dict(version=version, mixed=True)))
+    for shape in ("flat2", "nested3"):
+        out.append(("create.1.%s.align" % shape, "job_create", dict(which="1", shape=shape, K=2, edits=0, mode="sizes", align=True)))
     for which in creators:
         for shape, K in [("single", 3), ("flat2", 2), ("order2", 2), ("mixedcase2", 2)] + ([] if q else [("nested3", 2)]):
             out.append(("create.%s.%s" % (which, shape), "job_create", dict(which=which, shape=shape, K=K, edits=0, mode="sizes")))
@@ -73,7 +77,12 @@ def check_canonical(E, obj, tag, path="$"):
         strs_ = [k for k in keys if isinstance(k, str)]
         bufs = [k for k in keys if isinstance(k, ABuf)]
         E.check(len(strs_) + len(bufs) == len(keys), tag + ".key-type", "%s: keys must be strings" % path)
-        if strs_ and bufs:
+        if strs_ and bufs and all(len(b.segs) == 1 and b.segs[0][0] == "L" for b in bufs):
+            # concrete binary keys next to text keys (what a decoder returns for keys that are not valid UTF-8)
+            bs = [k.encode("utf-8") if isinstance(k, str) else bytes(k.segs[0][1]) for k in keys]
+            E.check(all(bs[i] < bs[i + 1] for i in range(len(bs) - 1)), tag + ".keys-sorted",
+                    "%s: keys not strictly ascending in raw byte order: %r" % (path, bs))
+        elif strs_ and bufs:
             E.fail(tag + ".key-type", "%s: mixed text and binary keys cannot be ordered by this model" % path)
         elif strs_:
             bs = [k.encode("utf-8") for k in strs_]
@@ -135,7 +144,7 @@ PRESETS = [{}, {"announce": 1, "comment": 1, "source": 1, "private": 1, "url_lis
            {"announce": 2, "comment": 1, "url_list": 1}]
 
 
-def job_create(E, which, shape, K, edits, mode="sizes", _mutants=None):
+def job_create(E, which, shape, K, edits, mode="sizes", align=False, _mutants=None):
     """mode 'sizes': symbolic sizes, option presets; 'opts': fixed sizes (both files
     multi-piece), every option subset; 'edits': fixed sizes, presets, forked edits."""
     P = 16384
@@ -174,6 +183,8 @@ def job_create(E, which, shape, K, edits, mode="sizes", _mutants=None):
         kw["url_list"] = [OStr("o.ws", nonempty=True)]
     if present["httpseeds"]:
         kw["httpseeds"] = [OStr("o.hs", nonempty=True)]
+    if align:
+        kw["align"] = True
     w = World(fs, mutants=_mutants)
     version = {"1": 1, "2a": 2, "2c": 2, "3a": 3, "3c": 3}[which]
     try:
@@ -310,6 +321,63 @@ def job_edit_foreign(E, version, _mutants=None):
         E.witnesses.setdefault(k, True)
 
 
+MIXED_ROOTS = [b"\x01\xff" + b"y" * 30, b"A" * 32, b"\xc3\x28" + b"z" * 30]      # raw order; the middle one decodes as text
+
+
+def _mixed_base(version, conc=False):
+    """A v2 / hybrid metafile whose pieces roots are, in raw order: binary, valid UTF-8 (a decoder returns it as text),
+    binary.  Built the way the decoder would return it: text where the bytes are valid UTF-8."""
+    P = 16384
+
+    def key(b):
+        try:
+            return b.decode("utf-8")
+        except UnicodeDecodeError:
+            return b if conc else ABuf(b)
+    tree, layers = {}, {}
+    for i, r in enumerate(MIXED_ROOTS):
+        tree["f%d" % i] = {"": {"length": 2 * P, "pieces root": key(r)}}
+        v = bytes([i + 1]) * 64
+        layers[key(r)] = v if conc else ABuf(v)
+    info = {"file tree": tree, "meta version": 2, "name": "name", "piece length": P}
+    if version == 3:
+        info["files"] = [{"length": 2 * P, "path": ["f%d" % i]} for i in range(3)]
+        pcs = b"\x07" * (20 * 6)
+        info["pieces"] = pcs if conc else ABuf(pcs)
+    return {"announce": "http://t/a", "info": dict(sorted(info.items())), "piece layers": layers}
+
+
+def job_edit_mixed(E, version, mixed=True, _mutants=None):
+    """Keys a decoder returns with mixed types (a pieces root that happens to be valid UTF-8 comes back as text, the
+    others as bytes): the written file must still have them in raw byte order."""
+    from symx.loader import ben_copy
+    base = _mixed_base(version)
+    fs = AFS()
+    fs.add_token(ew.MPATH, BenTok(ben_copy(base)))
+    w = World(fs, mutants=_mutants)
+    kinds = {}
+    for f, opts in {"announce": ["unnamed", "str"], "comment": ["unnamed", "str"], "private": ["unnamed", "true"]}.items():
+        kinds[f] = opts[E.choice("e0.%s" % f, len(opts))]
+    req = ew.request(E, kinds, tag="e0")
+    for v in req.values():
+        if isinstance(v, OStr):
+            v._nonempty = True
+    try:
+        w.mod("edit").edit_torrent(ew.MPATH, dict(req))
+    except Unsupported:
+        raise
+    except Exception as ex:  # noqa: BLE001
+        if any(isinstance(v, OStr) and f in ew.TOP and v._split.get(None) == [] for f, v in req.items()):
+            return
+        E.fail("C06.edit.no-exception", "%s: %s" % (type(ex).__name__, ex))
+        return
+    for d in w.dumps_log:
+        if d[0] == "dump":
+            check_canonical(E, d[1], "C06.edit")
+    for k in WITNESSES:
+        E.witnesses.setdefault(k, True)
+
+
 LEN_STEP = {"comment": ["unnamed", "cleared", "str"], "source": ["unnamed", "str"], "announce": ["unnamed", "cleared", "list1"]}
 
 
@@ -407,6 +475,8 @@ def replay(params, model, notes, workdir, seed):
             d = os.path.join(workdir, "try%d" % attempt)
             root, data = cr.materialize(d, shape, sizes, seed + 1000 * attempt)
             with contextlib.redirect_stdout(io.StringIO()):
+                if params.get("align"):
+                    kw["align"] = True
                 t = cr.real_create(which, path=root, piece_length=16384, outfile=out, **kw)
                 t.write()
             bad = _strict(out, version)
@@ -423,6 +493,22 @@ def replay(params, model, notes, workdir, seed):
             if bad:
                 return bad
         return bad
+    if params.get("mixed"):
+        from harness import c07 as _c07
+        version = params["version"]
+        mpath = os.path.join(workdir, "m.torrent")
+        with open(mpath, "wb") as f:
+            f.write(refconc.bencode(_mixed_base(version, conc=True)))
+        req = {}
+        for f_, opts in {"announce": ["unnamed", "str"], "comment": ["unnamed", "str"], "private": ["unnamed", "true"]}.items():
+            v = _c07.conc_value(opts[int(model.get("e0.%s" % f_, 0))], f_, max(1, int(model.get("reqe0.%s.words" % f_, 1))), "e0")
+            if v is not None:
+                req[f_] = v
+        try:
+            mods["torrentfile.edit"].edit_torrent(mpath, dict(req))
+        except Exception as ex:  # noqa: BLE001
+            return ["C06.edit.no-exception: %s" % ex]
+        return _strict(mpath, version)
     if "n" not in params and "which" not in params and "foreign" in model:
         from harness import c07 as _c07
         version = params["version"]
